@@ -308,6 +308,8 @@ Definition scratch_reserve (tr : bool) (t : ty) : N := if negb tr && has_prog t 
    one for the scratch reserve, and cfac bytes per input byte *)
 Definition alloc_bound (t : ty) (len : N) : N := (vdepth t + 1) * MiB2 + cfac t * len.
 
+Definition meter_of (x : tres) : N := match x with TOk _ _ a => a | TErr a => a | TPanic => 0 end.
+
 (* side condition of the bound: every Vec element type either needs at least one input byte or occupies no memory
    (a zero-sized element type: Rust then never allocates, the model's mem_size is 0).  A Vec of an element type
    with an EMPTY encoding but NON-ZERO size would grow without consuming input; no such type exists in the universe
@@ -324,6 +326,18 @@ Fixpoint vec_ok (t : ty) : bool :=
   | Tup ts => all_t vec_ok ts
   | Struct _ _ fs => all_f vec_ok fs
   | Opt2 a b => vec_ok a && vec_ok b
+  | _ => true
+  end.
+
+(* every Vec element type needs at least one input byte (otherwise four bytes of input decode to up to 2^32-1
+   elements: no memory, but element count and decoding time are not bounded by the input length) *)
+Fixpoint vec_elems_consume (t : ty) : bool :=
+  match t with
+  | Vec a => (1 <=? min_size a) && vec_elems_consume a
+  | Opt a | Arr _ a => vec_elems_consume a
+  | Tup ts => all_t vec_elems_consume ts
+  | Struct _ _ fs => all_f vec_elems_consume fs
+  | Opt2 a b => vec_elems_consume a && vec_elems_consume b
   | _ => true
   end.
 
